@@ -15,12 +15,18 @@ def parseOp? (s : String) : Option Op :=
   match s.splitOn ":" with
   | ["A", h] => (parseStr? h).map Op.add
   | ["U", m, r] => do some (Op.update (← m.toNat?) (← parseStr? r))
+  | ["K", m, r] => do some (Op.cleared (← m.toNat?) (← parseStr? r))
   | _ => none
 
 def showResolved : Resolved → String
   | .existing o => "E" ++ toString o.strat ++ "/" ++ showStr o.id
   | .created o => "C" ++ toString o.strat ++ "/" ++ showStr o.id
   | .dropped => "D"
+
+def showAnswer : Answer → String
+  | .resolved r => showResolved r
+  | .attached (some o) => "K" ++ toString o.strat ++ "/" ++ showStr o.id
+  | .attached none => "K-"
 
 def handle (toks : List String) : Option String := do
   match toks with
@@ -34,7 +40,7 @@ def handle (toks : List String) : Option String := do
       showStr (refHash ref) ++ " " ++ showStr (refId ref))
   | ["ref.inst", ops] =>
     let os ← (ops.splitOn ";").mapM parseOp?
-    some (showList showResolved (run os))
+    some (showList showAnswer (run os))
   | _ => none
 
 end Flumine.DriverRef
